@@ -144,6 +144,20 @@ impl Session {
     ) -> Result<(Session, Enr), Error> {
         // check and verify a potential ENR update
 
+        // A record sent along with the handshake must be the record of the node the handshake
+        // claims to come from. Otherwise the id-nonce signature would be checked against the key
+        // of an unrelated record and prove nothing about `remote_id`.
+        if let Some(enr) = enr_record.as_ref() {
+            if enr.node_id() != *remote_id {
+                warn!(
+                    node = %remote_id,
+                    enr_node_id = %enr.node_id(),
+                    "Handshake contained an ENR that does not belong to the sender",
+                );
+                return Err(Error::InvalidEnr);
+            }
+        }
+
         // Duplicate code here to avoid cloning an ENR
         let remote_public_key = {
             let enr = match (enr_record.as_ref(), challenge.remote_enr.as_ref()) {
